@@ -507,3 +507,155 @@ func genesisCache(gs GenesisSpec) *Genesis {
 	gcache[string(k)] = g
 	return g
 }
+
+// ---------------------------------------------------------------------------------
+// EthTracker_Trace events (C15)
+
+type EthTxEv struct {
+	K     string `json:"k"`
+	X     string `json:"x"`
+	Owner string `json:"owner"`
+	Amt   int64  `json:"amt"`
+	By    string `json:"by"`
+	Idx   int64  `json:"idx"`
+	Ok    bool   `json:"ok"`
+	Lockr string `json:"locker"`
+}
+
+type EthTrk struct {
+	Store string   `json:"store"`
+	Type  string   `json:"type"`
+	Owner string   `json:"owner"`
+	Amt   int64    `json:"amt"`
+	Wits  []string `json:"wits"`
+	Votes []int64  `json:"votes"`
+	Done  bool     `json:"done"`
+	State int64    `json:"state"`
+}
+
+type EthEvent struct {
+	T           int               `json:"t"`
+	Ev          string            `json:"ev"`
+	H           int64             `json:"h"`
+	Cap         int64             `json:"cap"`
+	Wits        []string          `json:"wits"`
+	Txs         []EthTxEv         `json:"txs"`
+	Trk         map[string]EthTrk `json:"trk"`
+	Bal         map[string]int64  `json:"bal"`
+	DupTrackers []string          `json:"dupTrackers"`
+}
+
+func ethBal(s *AbsState) map[string]int64 {
+	out := map[string]int64{}
+	for o, m := range s.Bal {
+		if v, ok := m["ETH"]; ok {
+			out[o] = v
+		}
+	}
+	return out
+}
+
+func ethTrk(s *AbsState) (map[string]EthTrk, []string) {
+	out := map[string]EthTrk{}
+	for n, t := range s.Trackers {
+		parts := splitN(n, ":")
+		e := EthTrk{Store: t.Store, Owner: t.Owner, Wits: t.Wits, Votes: t.Votes, State: t.State, Type: "lock"}
+		if t.Type == 2 {
+			e.Type = "redeem"
+		}
+		if len(parts) == 4 {
+			fmt.Sscan(parts[2], &e.Amt)
+		}
+		yes, no := 0, 0
+		for _, v := range t.Votes {
+			if v == 1 {
+				yes++
+			}
+			if v == 2 {
+				no++
+			}
+		}
+		th := len(t.Wits)*2/3 + 1
+		e.Done = yes >= th || no >= th
+		if e.Wits == nil {
+			e.Wits = []string{}
+		}
+		out[n] = e
+	}
+	dup := []string{}
+	for _, b := range s.Bad {
+		if len(b) > 8 && b[:8] == "tracker:" {
+			dup = append(dup, b)
+		}
+	}
+	return out, dup
+}
+
+func splitN(s, sep string) []string {
+	var out []string
+	cur := ""
+	for _, c := range s {
+		if string(c) == sep {
+			out = append(out, cur)
+			cur = ""
+		} else {
+			cur += string(c)
+		}
+	}
+	return append(out, cur)
+}
+
+func EthEvents(t int, sc *Scenario, tr *Transcript) []EthEvent {
+	if tr.InitState == nil {
+		return nil
+	}
+	g := genesisCache(sc.Genesis)
+	var wits []string
+	{
+		type wa struct {
+			n string
+			a []byte
+		}
+		var ws []wa
+		for _, n := range sc.Genesis.Witnesses {
+			ws = append(ws, wa{n, g.Validators[n].Val.Addr})
+		}
+		sort.Slice(ws, func(i, j int) bool { return string(ws[i].a) < string(ws[j].a) })
+		for _, w := range ws {
+			wits = append(wits, w.n)
+		}
+	}
+	var capv int64
+	fmt.Sscan(sc.Genesis.EthSupplyCap, &capv)
+	evs := []EthEvent{{T: t, Ev: "Init", Bal: ethBal(tr.InitState), Wits: wits, Cap: capv, Txs: []EthTxEv{}, Trk: map[string]EthTrk{}, DupTrackers: []string{}}}
+	for _, b := range tr.Blocks {
+		if b.State == nil {
+			break
+		}
+		e := EthEvent{T: t, Ev: "Block", H: b.H, Cap: capv, Wits: wits, Txs: []EthTxEv{}, Bal: ethBal(b.State)}
+		e.Trk, e.DupTrackers = ethTrk(b.State)
+		for _, tx := range b.Txs {
+			if !accepted(tx) {
+				continue
+			}
+			switch tx.Req.Kind {
+			case "ETH_LOCK":
+				e.Txs = append(e.Txs, EthTxEv{K: "LOCK", X: ExtKey("lock", tx.Req.S("owner"), tx.Req.I("amt"), tx.Req.I("n")), Owner: tx.Req.S("owner"), Amt: tx.Req.I("amt")})
+			case "ETH_REDEEM":
+				e.Txs = append(e.Txs, EthTxEv{K: "REDEEM", X: ExtKey("redeem", tx.Req.S("owner"), tx.Req.I("amt"), tx.Req.I("n")), Owner: tx.Req.S("owner"), Amt: tx.Req.I("amt")})
+			case "ETH_REPORT":
+				idx := tx.Req.I("idx")
+				if _, given := tx.Req.A["idx"]; !given {
+					idx = g.WitnessIndex(tx.Req.S("by"))
+					if idx < 0 {
+						idx = 0
+					}
+				}
+				e.Txs = append(e.Txs, EthTxEv{K: "REPORT", X: ExtKey(tx.Req.S("tkind"), tx.Req.S("towner"), tx.Req.I("tamt"), tx.Req.I("tn")),
+					By: tx.Req.S("by"), Idx: idx, Ok: tx.Req.I("ok") != 0, Lockr: tx.Req.S("locker")})
+			}
+		}
+		evs = append(evs, e)
+	}
+	return evs
+}
